@@ -328,6 +328,9 @@ def run_check(prop: str, tier: str, seed: int) -> int:
         inconclusive.append(f"shard {s} harness error: {e.strip().splitlines()[-1][:300]}")
     for s in watchdog_fired:
         inconclusive.append(f"shard {s} watchdog fired after {timeout}s")
+    for name, cnt in counters.items():
+        if name.startswith("inconclusive::") and cnt > 0:
+            inconclusive.append(f"{name[14:]} ({cnt}x)")
     for name, mn in require.items():
         if counters.get(name, 0) < mn:
             inconclusive.append(f"monitor counter {name}={counters.get(name, 0)} < required {mn}")
